@@ -11,7 +11,8 @@ PROFILES = {
             "mix": {"set_block_type": 10, "set_node_markup": 6, "wrap": 5, "lift": 5, "insert_node": 8,
                     "add_mark": 6, "remove_mark": 3, "type": 8, "raw_step": 6, "add_node_mark": 3,
                     "paste": 5, "paste_range": 4, "split": 4, "join": 3, "delete": 4, "delete_range": 3,
-                    "set_node_attribute": 3, "backspace": 3, "set_doc_attribute": 1}},
+                    "set_node_attribute": 3, "backspace": 3, "set_doc_attribute": 1, "mark_any": 6,
+                    "mark_sweep": 2}},
     "C03": {"schemas": schemas.NAMES, "byz": (0.0, 0.3), "faults": 0.5, "mix": None, "tenant": True},
     # history clauses are asserted on the core schemas only (monbase.CORE_SCHEMAS); docmarks and comment
     # are here for the "under every schema" single-step clauses
